@@ -75,7 +75,9 @@ def _cff_wrapped(font, glyph_name):
         pen = RecordingPen()
         font.getGlyphSet()[glyph_name].draw(pen)
         vals = [v for _, pts in pen.value for pt in pts for v in pt]
-        return any(abs(v - round(v)) > 1e-6 for v in vals) and any(abs(v) > 16000 for v in vals)
+        # (rounded CFF outlines never carry fractions; a wrapped delta leaves one next to coordinates that are far out -
+        # half the 16-bit range at upem 16384, a quarter of it when a huge shape sits in a upem 2048 font)
+        return any(abs(v - round(v)) > 1e-6 for v in vals) and any(abs(v) > 8000 for v in vals)
     except Exception:
         return False
 
